@@ -268,13 +268,19 @@ class Model(object):
         # If input x is Samples we apply func for each sample
         # TODO: Check if this can be done all-at-once for computational speed-up
         if isinstance(x,Samples):
+            # The samples carry their own representation flag: samples of
+            # function values (converted from vector form if needed) are
+            # passed on as function values, samples of parameters as parameters
+            items_are_par = x.is_par
+            if not items_are_par:
+                x = x.funvals
             out = np.zeros((func_range_geometry.par_dim, x.Ns))
             # Recursively apply func to each sample
             for idx, item in enumerate(x):
                 out[:,idx] = self._apply_func(func,
                                               func_range_geometry,
                                               func_domain_geometry,
-                                              item, is_par=True,
+                                              item, is_par=items_are_par,
                                               **kwargs)
             return Samples(out, geometry=func_range_geometry)
         
